@@ -33,6 +33,46 @@ theorem init_function_kept (overlays : List File) (fn : Func) (hn : fn.name = "i
   have hk : funcKey fn = "init" := by simp [funcKey, hr, hn]
   simp [origDecl, hk, init_never_overridden, hr]
 
+/-- A method key is never the key `init`: `FuncKey` of a method is `<recv>.<name>` (astutil.go:102-107). -/
+theorem funcKey_method_ne_init (fn : Func) (h : fn.sig.recvKey ≠ "") : funcKey fn ≠ "init" := by
+  intro hk
+  simp only [funcKey, h, ne_eq, not_false_eq_true, if_true] at hk
+  have hl := congrArg String.toList hk
+  simp only [String.toList_append] at hl
+  have hmem : '.' ∈ "init".toList := by
+    rw [← hl]; simp
+  revert hmem
+  decide
+
+/-- The `init` exception concerns the FuncKey `init` (package-level `func init()`) ONLY. A METHOD named `init`
+(key `T.init`) is an ordinary method: the table holds for it exactly what the last overlay declaration of
+`T.init` says — plain replacement, keep-original and override-signature all apply. -/
+theorem method_named_init_overridable (overlays : List File) (fn : Func) (h : fn.sig.recvKey ≠ "") :
+    GV.Augment.get (funcKey fn) (overridesOf overlays)
+      = ((overlayRules overlays).reverse.find? (fun p => p.1 == funcKey fn)).map (fun p => toInfo p.2) := by
+  have hk := funcKey_method_ne_init fn h
+  rw [overrides_agree overlays (funcKey fn)]
+  have : (funcKey fn == "init") = false := by simpa using hk
+  simp only [ruleFor, this, Bool.false_eq_true, if_false, Option.map_map]
+  rfl
+
+/-- overlay `func (t *T) init() {…}` (no directive) -/
+def initMethodOverlay : File :=
+  { doc := [], comments := [], decls := [some (.func
+      { id := 1, name := "init", dirs := [], doc := [], sig := ⟨2, "T", [], []⟩, bsels := [], bcms := [] })] }
+
+/-- original `func (t T) init() {…}` -/
+def initMethodOriginal : Func :=
+  { id := 3, name := "init", dirs := [], doc := [], sig := ⟨4, "T", [], []⟩, bsels := [], bcms := [] }
+
+/-- concrete instance: the overlay's method `T.init` is in the table and the original `T.init` is removed,
+while an original package-level `func init()` in the same package stays -/
+example : GV.Augment.get "T.init" (overridesOf [initMethodOverlay]) = some {} ∧
+    origDecl (overridesOf [initMethodOverlay]) (some (.func initMethodOriginal)) = (none, true) ∧
+    origDecl (overridesOf [initMethodOverlay])
+      (some (.func { initMethodOriginal with sig := ⟨4, "", [], []⟩ }))
+      = (some (.func { initMethodOriginal with sig := ⟨4, "", [], []⟩ }), false) := by decide
+
 /-! ### names, provenance, order -/
 
 /-- The override table built by the code = the documented rules (last overlay declaration of a name wins,
